@@ -707,16 +707,13 @@ func e2eRuns(run *vh.Run, n int) {
 	}
 }
 
-// ancFailureAsNone: candidate finding - a failed ancestor exchange reaches the finder as "no anchor shared"
-// (p2p/ancestorreceiver.go: any status but OK => Ancestor: nil), the full scan below LastAnchor then returns a shared
-// block that is not the highest shared one. Counted, with the first replay kept in the samples, until the lead decides.
-var ancFailureShown bool
-
+// ancFailureAsNone: known finding C17-ancestor-failure-read-as-none - a failed ancestor exchange reaches the finder
+// as "no anchor shared" (p2p/ancestorreceiver.go: any status but OK => Ancestor: nil), the full scan below LastAnchor
+// then returns a shared block that is not the highest shared one. Tagged only when the nil reply was caused by a
+// status other than NOT_FOUND (res.ancFailed) and the ancestor is shared (checked by the caller before).
 func ancFailureAsNone(run *vh.Run, sc *e2eScenario, what string, anc, hc int, res *e2eResult) {
-	run.Count("candidate:C17-ancestor-failure-read-as-none")
-	if !ancFailureShown {
-		ancFailureShown = true
-		run.Sample(fmt.Sprintf("candidate C17-ancestor-failure-read-as-none: %s: ancestor %d, highest shared %d, light replies %v, probes %d; scenario %s",
-			what, anc, hc, res.light, res.probes, sc.String()))
-	}
+	run.Count("known:C17-ancestor-failure-read-as-none")
+	run.FailKnown(fmt.Sprintf("%s: the ancestor exchange failed below the syncer (status other than NOT_FOUND), the finder was told 'no anchor shared' and handed on ancestor %d, not the highest shared block %d",
+		what, anc, hc), "C17-ancestor-failure-read-as-none",
+		map[string]interface{}{"scenario": sc.String(), "light_replies": res.light, "probes": res.probes, "log": res.log})
 }
